@@ -154,4 +154,129 @@ theorem next_at_math (c : List Nat) (p : Nat) (hn : c.length < 4294967296)
   simp [matchMiddle, rd_some c (p + 1) 109 h1, rd_some c _ 97 h2', rd_some c _ 116 h3', rd_some c _ 104 h4',
     bind, Except.bind, pure, Except.pure]
 
+
+theorem matchMiddle_stop (c : List Nat) (wend : Nat) (w : Nat) (ws : List Nat) (off x : Nat)
+    (hlt : off < wend) (hx : c[off]? = some x) (hne : x ≠ w) :
+    matchMiddle c wend (w :: ws) off = .ok off := by
+  simp [matchMiddle, hlt, rd_some c off x hx, bind, Except.bind, hne]
+
+/-- `<if` at `p` followed by ` c…s` (as in `<if case=`): units `p+4`, `p+6` known -/
+theorem next_at_if (c : List Nat) (p : Nat) (hn : c.length + 16 < 4294967296)
+    (h0 : c[p]? = some 60) (h1 : c[p + 1]? = some 105) (h2 : c[p + 2]? = some 102)
+    (h4 : c[p + 4]? = some 99) (h6 : c[p + 6]? = some 115) : next c p = .ok (p + 3, 9) := by
+  have hlt : p < c.length := (List.getElem?_eq_some_iff.mp h0).1
+  have hlt2 : p + 2 < c.length := (List.getElem?_eq_some_iff.mp h2).1
+  have hlt4 : p + 4 < c.length := (List.getElem?_eq_some_iff.mp h4).1
+  have hlt6 : p + 6 < c.length := (List.getElem?_eq_some_iff.mp h6).1
+  unfold next
+  have : c.length + 1 - p = (c.length - p) + 1 := by omega
+  rw [this]
+  simp only [nextF, hlt, if_true, rd_some c p 60 h0, bind, Except.bind]
+  have hid : firstCharID 60 = 1 := by decide
+  have hg : W1.groups.getD 1 [] = [6, 7, 8, 9, 10] := by decide
+  have hfc : (1 : Nat) < W1.firstCharsCount := by decide
+  have hwl6 : W1.wordLengths.getD 6 0 = 3 := by decide
+  have hw6 : W1.words.getD 6 [] = [108, 111, 111, 112] := by decide
+  have hwl7 : W1.wordLengths.getD 7 0 = 5 := by decide
+  have hw7 : W1.words.getD 7 [] = [47, 108, 111, 111, 112, 62] := by decide
+  have hwl8 : W1.wordLengths.getD 8 0 = 1 := by decide
+  have hw8 : W1.words.getD 8 [] = [105, 102] := by decide
+  have h32 : (2 : Nat) ^ sizeTBits = 4294967296 := by decide
+  have hm3 : (p + 1 + 3) % 4294967296 = p + 4 := by omega
+  have hm5 : (p + 1 + 5) % 4294967296 = p + 6 := by omega
+  have hm1 : (p + 1 + 1) % 4294967296 = p + 2 := by omega
+  simp only [hid, hfc, if_true, hg, tryWords, hwl6, hw6, hwl7, hw7, hwl8, hw8, h32, hm3, hm5, hm1, hlt4, hlt6, hlt2,
+    rd_some c (p + 4) 99 h4, rd_some c (p + 6) 115 h6, rd_some c (p + 2) 102 h2]
+  simp [matchMiddle, rd_some c (p + 1) 105 h1, bind, Except.bind, pure, Except.pure]
+
+/-- one candidate word of `tryWords` that does not match -/
+theorem tryWords_skip (c : List Nat) (start wid : Nat) (rest : List Nat)
+    (h : ∀ (hw : (start + W1.wordLengths.getD wid 0) % 2 ^ sizeTBits < c.length),
+      c[(start + W1.wordLengths.getD wid 0) % 2 ^ sizeTBits] = (W1.words.getD wid []).getD (W1.wordLengths.getD wid 0) 0 →
+      ∃ off, matchMiddle c ((start + W1.wordLengths.getD wid 0) % 2 ^ sizeTBits)
+        ((W1.words.getD wid []).take (W1.wordLengths.getD wid 0)) start = .ok off ∧
+        off ≠ (start + W1.wordLengths.getD wid 0) % 2 ^ sizeTBits) :
+    tryWords c start (wid :: rest) = tryWords c start rest := by
+  simp only [tryWords]
+  by_cases hw : (start + W1.wordLengths.getD wid 0) % 2 ^ sizeTBits < c.length
+  · simp only [hw, if_true, rd_ok c _ hw, bind, Except.bind]
+    by_cases he : c[(start + W1.wordLengths.getD wid 0) % 2 ^ sizeTBits] =
+        (W1.words.getD wid []).getD (W1.wordLengths.getD wid 0) 0
+    · obtain ⟨off, ho, hne⟩ := h hw he
+      simp only [he, if_true, ho, hne, if_false]
+    · simp only [he, if_false]
+  · simp only [hw, if_false]
+
+/-- the candidate that matches -/
+theorem tryWords_hit (c : List Nat) (start wid : Nat) (rest : List Nat)
+    (hw : (start + W1.wordLengths.getD wid 0) % 2 ^ sizeTBits < c.length)
+    (he : c[(start + W1.wordLengths.getD wid 0) % 2 ^ sizeTBits] =
+      (W1.words.getD wid []).getD (W1.wordLengths.getD wid 0) 0)
+    (hm : matchMiddle c ((start + W1.wordLengths.getD wid 0) % 2 ^ sizeTBits)
+      ((W1.words.getD wid []).take (W1.wordLengths.getD wid 0)) start =
+      .ok ((start + W1.wordLengths.getD wid 0) % 2 ^ sizeTBits)) :
+    tryWords c start (wid :: rest) =
+      .ok (some ((start + W1.wordLengths.getD wid 0) % 2 ^ sizeTBits + 1, wid + 1)) := by
+  simp only [tryWords, hw, if_true, rd_ok c _ hw, bind, Except.bind, he, hm]
+
+/-- `</if>` at `q` -/
+theorem next_at_ifend (c : List Nat) (q : Nat) (hn : c.length + 16 < 4294967296)
+    (h0 : c[q]? = some 60) (h1 : c[q + 1]? = some 47) (h2 : c[q + 2]? = some 105)
+    (h3 : c[q + 3]? = some 102) (h4 : c[q + 4]? = some 62) : next c q = .ok (q + 5, 10) := by
+  have hlt : q < c.length := (List.getElem?_eq_some_iff.mp h0).1
+  have hlt1 : q + 1 < c.length := (List.getElem?_eq_some_iff.mp h1).1
+  have hlt2 : q + 2 < c.length := (List.getElem?_eq_some_iff.mp h2).1
+  have hlt3 : q + 3 < c.length := (List.getElem?_eq_some_iff.mp h3).1
+  have hlt4 : q + 4 < c.length := (List.getElem?_eq_some_iff.mp h4).1
+  have e1 : c[q + 1] = 47 := by have := List.getElem?_eq_getElem hlt1; rw [h1] at this; exact (Option.some.inj this).symm
+  have e2 : c[q + 2] = 105 := by have := List.getElem?_eq_getElem hlt2; rw [h2] at this; exact (Option.some.inj this).symm
+  have e3 : c[q + 3] = 102 := by have := List.getElem?_eq_getElem hlt3; rw [h3] at this; exact (Option.some.inj this).symm
+  have e4 : c[q + 4] = 62 := by have := List.getElem?_eq_getElem hlt4; rw [h4] at this; exact (Option.some.inj this).symm
+  unfold next
+  have : c.length + 1 - q = (c.length - q) + 1 := by omega
+  rw [this]
+  simp only [nextF, hlt, if_true, rd_some c q 60 h0, bind, Except.bind]
+  have hid : firstCharID 60 = 1 := by decide
+  have hg : W1.groups.getD 1 [] = [6, 7, 8, 9, 10] := by decide
+  have hfc : (1 : Nat) < W1.firstCharsCount := by decide
+  have h32 : (2 : Nat) ^ sizeTBits = 4294967296 := by decide
+  simp only [hid, hfc, if_true, hg]
+  -- `loop`: last unit differs
+  have s6 : tryWords c (q + 1) (6 :: [7, 8, 9, 10]) = tryWords c (q + 1) [7, 8, 9, 10] := by
+    apply tryWords_skip
+    have hwl : W1.wordLengths.getD 6 0 = 3 := by decide
+    have hwd : W1.words.getD 6 [] = [108, 111, 111, 112] := by decide
+    simp only [hwl, hwd, h32, show (q + 1 + 3) % 4294967296 = q + 4 by omega]
+    intro _ he; rw [e4] at he; simp at he
+  -- `/loop>`: third unit differs
+  have s7 : tryWords c (q + 1) (7 :: [8, 9, 10]) = tryWords c (q + 1) [8, 9, 10] := by
+    apply tryWords_skip
+    have hwl : W1.wordLengths.getD 7 0 = 5 := by decide
+    have hwd : W1.words.getD 7 [] = [47, 108, 111, 111, 112, 62] := by decide
+    simp only [hwl, hwd, h32, show (q + 1 + 5) % 4294967296 = q + 6 by omega]
+    intro _ _
+    refine ⟨q + 2, ?_, by omega⟩
+    have h2' : c[q + 1 + 1]? = some 105 := by rw [show q + 1 + 1 = q + 2 by omega]; exact h2
+    simp [matchMiddle, rd_some c (q + 1) 47 h1, rd_some c _ 105 h2', bind, Except.bind,
+      show q + 1 < q + 6 by omega, show q + 1 + 1 < q + 6 by omega]
+  -- `if`: last unit differs
+  have s8 : tryWords c (q + 1) (8 :: [9, 10]) = tryWords c (q + 1) [9, 10] := by
+    apply tryWords_skip
+    have hwl : W1.wordLengths.getD 8 0 = 1 := by decide
+    have hwd : W1.words.getD 8 [] = [105, 102] := by decide
+    simp only [hwl, hwd, h32, show (q + 1 + 1) % 4294967296 = q + 2 by omega]
+    intro _ he; rw [e2] at he; simp at he
+  -- `/if>`
+  have s9 : tryWords c (q + 1) (9 :: [10]) = .ok (some (q + 5, 10)) := by
+    have hwl : W1.wordLengths.getD 9 0 = 3 := by decide
+    have hwd : W1.words.getD 9 [] = [47, 105, 102, 62] := by decide
+    have := tryWords_hit c (q + 1) 9 [10]
+    simp only [hwl, hwd, h32, show (q + 1 + 3) % 4294967296 = q + 4 by omega] at this
+    apply this hlt4 (by rw [e4]; rfl)
+    have h2' : c[q + 1 + 1]? = some 105 := by rw [show q + 1 + 1 = q + 2 by omega]; exact h2
+    have h3' : c[q + 1 + 1 + 1]? = some 102 := by rw [show q + 1 + 1 + 1 = q + 3 by omega]; exact h3
+    simp [matchMiddle, rd_some c (q + 1) 47 h1, rd_some c _ 105 h2', rd_some c _ 102 h3', bind, Except.bind,
+      show q + 1 < q + 4 by omega, show q + 1 + 1 < q + 4 by omega, show q + 1 + 1 + 1 < q + 4 by omega]
+  rw [s6, s7, s8, s9]
+
 end Qentem.Tmpl
